@@ -45,6 +45,9 @@ func (e *Embed) Guard(g AGuard) biscuit.Expression {
 			return biscuit.Expression{biscuit.Value{Term: biscuit.Bool(true)}, biscuit.UnaryLength}
 		}
 	}
+	if g.O == "pre" {
+		return biscuit.Expression{biscuit.Value{Term: e.Term(g.L)}, biscuit.Value{Term: e.Term(g.R)}, biscuit.BinaryPrefix}
+	}
 	ex := biscuit.Expression{biscuit.Value{Term: e.Term(g.L)}, biscuit.Value{Term: e.Term(g.R)}, bin[g.O]}
 	if g.O == "ne" {
 		ex = append(ex, biscuit.UnaryNegate)
